@@ -11,6 +11,7 @@ sys.path.insert(0, "/repo")            # the current working tree of the impleme
 os.environ.setdefault("PYTHONHASHSEED", "0")
 os.environ.setdefault("SETIGEN_VERIF", "1")
 os.environ.setdefault("MPLBACKEND", "Agg")
+os.environ.setdefault("TQDM_DISABLE", "1")
 import warnings
 warnings.filterwarnings("ignore")
 
